@@ -65,7 +65,16 @@ def cls_compress_label_imm(case):
     return _mentions_label_outside_offset(_failing_line(case), labels)
 
 
+def cls_program_label_imm(case):
+    """KF-A / KF-B seen globally (sizes, outcome): the program contains an li or a non-branch
+    instruction whose immediate mentions a label"""
+    labels = _label_names(case)
+    return any(_mentions_label_outside_offset(l, labels) for l in _program_lines(case)
+               if not l.strip().lower().startswith(('dw', 'dd', 'dh', 'db', 'pack')))
+
+
 CLASSES = {
+    'program-label-imm': cls_program_label_imm,
     'li-offset': cls_li_offset,
     'li-label-arith': cls_li_label_arith,
     'compress-label-imm': cls_compress_label_imm,
